@@ -4,7 +4,7 @@
    cs over every segmentation. *)
 From Coq Require Import List Arith NArith Bool Lia.
 Import ListNotations.
-Require Import FV.Gen.C07 FV.C07.Model FV.C07.Run FV.C07.Lemmas FV.C07.Utf8 FV.C07.Enc FV.C07.Wellformed FV.C07.Codec FV.C07.Repl FV.C07.Echo.
+Require Import FV.Gen.C07 FV.C07.Model FV.C07.Run FV.C07.Lemmas FV.C07.Utf8 FV.C07.Enc FV.C07.Wellformed FV.C07.Codec FV.C07.Repl FV.C07.Echo FV.C07.Conc FV.C07.ConcLemmas FV.C07.ConcOrder.
 Local Open Scope N_scope.
 
 (* obligations on the facts regenerated from /repo (Gen/C07.v) *)
@@ -16,6 +16,11 @@ Theorem C07_source_facts :
   one_send_per_result = true /\ decode_split_max = 2%nat /\ error_split_max = 3%nat /\ EOL = 10 /\
   (* locks: one frame per sendall inside send_lock; one request at a time in the dispatcher *)
   sendall_in_send_lock = true /\ handle_request_under_lock = true /\
+  (* the send path as modelled in Conc.v: the frame is computed before the with block and nothing runs after it; a
+     failing sendall is caught inside the with block (running := False, nothing raised); nothing but send_reply writes
+     to the socket; one plain Lock per connection object, running only changed in setup and inside the with block *)
+  encode_outside_lock = true /\ send_failure_caught = true /\ socket_written_only_by_send_reply = true /\
+  send_lock_per_connection = true /\
   (* tables: the only handler without a reply tuple is the one of the help request, which never reaches the
      dispatcher; every handler's reply action is the one REQUEST2REPLY gives for its name; the error names used by the
      request loop are SECoP error classes *)
@@ -243,6 +248,108 @@ Example C07_demo :
   /\ buf (serve demoE [Chunk [112; 105]; Async ([117], Some [120], None); Chunk [110; 103; 32; 120; 10; 255; 10; 97]]) = [97].
 Proof. vm_compute. split; reflexivity. Qed.
 
+(* ------------------------------------------------------------------ concurrent send path (Conc.v)
+   progs: for every thread (the handler threads of the connections, threads broadcasting parameter updates, threads
+   emitting log messages - any number) the (connection, message) pairs it hands to send_reply, in order; sched: ANY
+   schedule - which thread makes its next atomic step (encode outside the lock / acquire send_lock and test running /
+   one partial write of the socket / a failing write), with ANY sizes of the partial writes and socket failures
+   anywhere; c: any connection. *)
+
+(* asynchronous messages never split another line: the bytes a socket accepted are whole frames in the order in which
+   send_lock was acquired - only the last frame begun may be incomplete (in flight, or cut by a socket failure); every
+   frame is encode_msg_frame of a message handed to send_reply of that connection; while the connection runs each
+   thread's frames appear in the order of its calls, none missing; when all calls have returned the stream consists
+   of whole frames only and holds, per thread, exactly the frames of its messages in order *)
+Theorem C07_frames_never_interleaved : forall progs sched c,
+  let st := crun true (cinit progs) sched in
+  let lg := log (con st c) in
+  (sock (con st c) = concat (map snd lg) \/
+   exists done t f w r, lg = done ++ [(t, f)] /\ f = w ++ r /\ sock (con st c) = concat (map snd done) ++ w) /\
+  (forall t f, In (t, f) lg -> exists m, In (c, m) (progs t) /\ encodable m = true /\ f = encode_frame m) /\
+  (running (con st c) = true -> forall t, projf t lg = encs c (donej (thr st t)) ++ curf (thr st t) c) /\
+  ((forall t, todo (thr st t) = []) -> running (con st c) = true ->
+     sock (con st c) = concat (map snd lg) /\ forall t, projf t lg = encs c (progs t)).
+Proof.
+  intros progs sched c st lg.
+  assert (I1 : Inv st) by (apply crun_inv, cinit_inv).
+  assert (I2 : Inv2 progs st) by (apply crun_inv2, cinit_inv2).
+  split; [exact (inv_wfs st c I1)|]. split; [|split].
+  - intros t f Hin. destruct I2 as [_ [_ [C _]]]. destruct (C c t f Hin) as [m [Hm He]].
+    exists m. split; [exact Hm|]. unfold encode_msg in He. destruct (encodable m); [|discriminate].
+    inversion He. auto.
+  - intros Hr t. destruct I2 as [_ [_ [_ D]]]. apply D. exact Hr.
+  - intros Q Hr. exact (quiet_whole progs st c I1 I2 Q Hr).
+Qed.
+
+(* every line the peer reads is one message: a stream made of frames that are lines (C07_lines_wellformed: every frame is
+   body ++ [EOL] with no EOL in the body) followed by an EOL-free rest splits at the newlines into exactly these bodies *)
+Theorem C07_peer_reads_frames : forall bodies w,
+  Forall (fun l => ~ In EOL l) bodies -> ~ In EOL w ->
+  lines_of (flat_map (fun l => l ++ [EOL]) bodies ++ w) = (bodies, w).
+Proof. intros; apply lines_of_frames; assumption. Qed.
+
+(* a failing sendall (BrokenPipeError, OSError, time-out, anything) never leaves send_lock held and never stops another
+   connection: the lock is only ever held by a thread inside sendall of a running connection, and each step of that
+   thread writes at least one byte or leaves the with block; a stopped connection has its lock free; when all calls
+   have returned all locks are free; the failing step itself frees the lock, stops this connection only, and the
+   calling thread (e.g. the broadcast loop over all subscribers) goes on with its next call; connection c is only ever
+   stopped by a failure of its own socket *)
+Theorem C07_send_failure_releases_lock : forall progs sched c,
+  let st := crun true (cinit progs) sched in
+  (forall t, lock (con st c) = Some t -> running (con st c) = true /\
+     exists m tl f rest, todo (thr st t) = (c, m) :: tl /\ ph (thr st t) = PWrite f rest) /\
+  (running (con st c) = false -> lock (con st c) = None) /\
+  ((forall t, todo (thr st t) = []) -> lock (con st c) = None) /\
+  (forall t m tl f rest a, todo (thr st t) = (c, m) :: tl -> ph (thr st t) = PWrite f rest ->
+     let st' := cstep true st (t, a) in
+     (lock (con st' c) = None /\ todo (thr st' t) = tl /\ ph (thr st' t) = PIdle) \/
+     (exists r', todo (thr st' t) = (c, m) :: tl /\ ph (thr st' t) = PWrite f r' /\ (length r' < length rest)%nat)) /\
+  (forall t m tl f rest, todo (thr st t) = (c, m) :: tl -> ph (thr st t) = PWrite f rest ->
+     let st' := cstep true st (t, Fail c) in
+     lock (con st' c) = None /\ running (con st' c) = false /\ sock (con st' c) = sock (con st c) /\
+     todo (thr st' t) = tl /\ ph (thr st' t) = PIdle /\
+     (forall c', c' <> c -> con st' c' = con st c') /\ (forall t', t' <> t -> thr st' t' = thr st t')) /\
+  ((forall t, ~ In (t, Fail c) sched) -> running (con st c) = true).
+Proof.
+  intros progs sched c st.
+  assert (I1 : Inv st) by (apply crun_inv, cinit_inv).
+  split; [|split; [|split; [|split; [|split]]]].
+  - intros t Hl. destruct (I1 c) as [H1 _]. unfold inv_c in H1. rewrite Hl in H1.
+    destruct H1 as [f [rest [done [w [[m [tl [Ht Hp]]] [Hr _]]]]]]. split; [exact Hr|]. exists m, tl, f, rest. auto.
+  - apply failed_unlocked. exact I1.
+  - intros Q. apply quiet_unlocked; assumption.
+  - intros t m tl f rest a Ht Hp. apply holder_progress; assumption.
+  - intros t m tl f rest Ht Hp. eapply fail_step; eassumption.
+  - intros H. unfold st. rewrite (crun_running true sched (cinit progs) c H). reflexivity.
+Qed.
+
+(* the lock is what keeps the frames whole: the same send_reply without `with self.send_lock` - two threads, one frame
+   each ("ab" and "cd"), the socket takes the first byte of the first frame, then the second thread writes: both calls
+   return, all bytes are written, but the peer reads the lines "acd" and "b"; with the lock the same schedule leaves
+   the second thread waiting and the stream is the whole first frame *)
+Definition wl_progs : nat -> list job :=
+  progs_of [[(0%nat, ([97; 98], None, None))]; [(0%nat, ([99; 100], None, None))]].
+Definition wl_sched : list cevent :=
+  [(0, Write 0); (0, Write 0); (0, Write 1); (1, Write 0); (1, Write 0); (1, Write 9); (0, Write 9)]%nat.
+Theorem C07_without_lock_frames_interleave :
+  (let st := crun false (cinit wl_progs) wl_sched in
+   map snd (log (con st 0%nat)) = [[97; 98; 10]; [99; 100; 10]] /\
+   todo (thr st 0%nat) = [] /\ todo (thr st 1%nat) = [] /\ running (con st 0%nat) = true /\
+   sock (con st 0%nat) = [97; 99; 100; 10; 98; 10] /\
+   lines_of (sock (con st 0%nat)) = ([[97; 99; 100]; [98]], [])) /\
+  (let st := crun true (cinit wl_progs) wl_sched in
+   sock (con st 0%nat) = [97; 98; 10] /\ lock (con st 0%nat) = None /\ ph (thr st 1%nat) = PEnc [99; 100; 10]).
+Proof. vm_compute. repeat split; reflexivity. Qed.
+
+(* non-vacuity of the failure theorem: a broadcast thread sends to connections 0 and 1; the socket of connection 0
+   breaks after the first byte: connection 0 is stopped with a cut frame, its lock is free, connection 1 gets its frame *)
+Example C07_failure_demo :
+  let st := crun true (cinit (progs_of [[(0%nat, ([97; 98], None, None)); (1%nat, ([97; 98], None, None))]]))
+              [(0, Write 0); (0, Write 0); (0, Write 1); (0, Fail 0); (0, Write 0); (0, Write 0); (0, Write 5)]%nat in
+  sock (con st 0%nat) = [97] /\ running (con st 0%nat) = false /\ lock (con st 0%nat) = None /\
+  sock (con st 1%nat) = [97; 98; 10] /\ running (con st 1%nat) = true /\ lock (con st 1%nat) = None.
+Proof. vm_compute. repeat split; reflexivity. Qed.
+
 Print Assumptions C07_source_facts.
 Print Assumptions C07_chunking.
 Print Assumptions C07_line_by_line.
@@ -261,3 +368,7 @@ Print Assumptions C07_case_law.
 Print Assumptions C07_isolation.
 Print Assumptions C07_codec_inverse.
 Print Assumptions C07_lines_wellformed.
+Print Assumptions C07_frames_never_interleaved.
+Print Assumptions C07_peer_reads_frames.
+Print Assumptions C07_send_failure_releases_lock.
+Print Assumptions C07_without_lock_frames_interleave.
